@@ -274,6 +274,7 @@ func vfAdversarialBFS(c *hx.Ctx, prefix string, depth int, full bool) {
 				u.States++
 				for len(queue) > 0 {
 					st := queue[0]
+					queue[0] = nil
 					queue = queue[1:]
 					if st.depth >= depth {
 						continue
@@ -380,7 +381,9 @@ func vfAdversarialBFS(c *hx.Ctx, prefix string, depth int, full bool) {
 							if len(u.Samples) < 3 && st.depth+1 == depth && u.States%1500 == 7 {
 								u.Samples = append(u.Samples, map[string]any{"path": path})
 							}
-							queue = append(queue, &vfBfsState{k: k2, now: now2, depth: st.depth + 1, path: path})
+							if st.depth+1 < depth { // states at the depth bound were checked above and are never expanded: not kept
+								queue = append(queue, &vfBfsState{k: k2, now: now2, depth: st.depth + 1, path: path})
+							}
 						}
 					}
 				}
